@@ -185,6 +185,31 @@ def run(ctx):
                           f"accumulated from zero() of self (tags {a.get('tags')}, expected all 1)", r, expected=[1] * len(a.get("tags", [1])), observed=a)
     impl = run_harness(reqs)
     model = run_driver(reqs)
+    # the same operations in the crate as a default-feature user builds it, WITH debug assertions and overflow checks (D = 1..6): same bits,
+    # no panic (overflowing products, infinities and NaN operands included)
+    from ..core import run_nolog
+    sub = [(r, a) for r, a in zip(reqs, impl) if (r["op"] == "f64" or r.get("D", 0) <= 6)][:: 3] + \
+          [(r, a) for r, a in zip(reqs, impl) if r["op"] == "vec" and r.get("D", 0) <= 6 and any(is_special(b2f(v)) or abs(b2f(v)) > 1e150 for v in r["a"] + r["b"])][:400]
+    # (products beyond f64: finite operands, infinite result)
+    for D in (1, 2, 3, 4, 6):
+        for fn in ("dot", "squared", "muls", "add"):
+            rq = {"op": "vec", "fn": fn, "D": D, "a": [f2b(1e200)] * D, "b": [f2b(-1e200 if fn == "dot" else 1e200)] * D, "s": f2b(1e200)}
+            sub.append((rq, None))
+    nres, nerr = run_nolog([r for r, _ in sub])
+    if nres is None:
+        ctx.mismatch("the crate does not build with its default features", None, nerr[-500:], None)
+    else:
+        pend = [r for (r, a) in sub if a is None]
+        ref = dict(zip([id(r) for r in pend], run_harness(pend))) if pend else {}
+        for (r, a), b in zip(sub, nres):
+            a = a if a is not None else ref[id(r)]
+            ctx.count("debug_assertions_build_compared")
+            if b.get("skipped"):
+                continue
+            if b.get("status") == "panic":
+                ctx.violation(f"{r['op']}::{r['fn']} panics in a build with debug assertions: {str(b.get('msg'))[:120]}", r, expected=a.get("r"), observed=b)
+            elif b.get("r") != a.get("r"):
+                ctx.violation(f"{r['op']}::{r['fn']}: the debug-assertions build returns other bits than the release build", r, expected=a.get("r"), observed=b.get("r"))
     for r, a, m in zip(reqs, impl, model):
         if r["op"] == "vec":
             av, bv = [b2f(v) for v in r["a"]], [b2f(v) for v in r["b"]]
